@@ -872,6 +872,54 @@ Definition calc_all (cfg : config) (st : state) (user : Z) (es : list biter) (ip
       calc_lends cfg st1 user (map l_id ls) ipbs
   end.
 
+(* ---------- liquidationsV2: LiquidateIndividualBorrow -> UpdateLockedBorrows ---------- *)
+(* Reached through MsgLiquidateInternalKeeper{LiqType: 1}.  The DECISION (is the collateralisation
+   ratio above the liquidation threshold) is property C09's subject and enters, like the interest
+   IterateBorrowForLiq computes, as an ENV value: d = 0 not liquidatable (nothing is written),
+   1 handed over, 2 an error / 3 a panic before any write.  What the hand-over DOES to the lend books is
+   modelled as coded: the position is flagged and its interest stored, the collateral leaves the
+   pool for the auction module and its cTokens are burnt, the principal leaves the borrow totals,
+   the collateral leaves TotalLend and the lend record's AmountIn; the lend record is DELETED when
+   AmountIn is exhausted - whatever its AvailableToBorrow and its other positions (finding C08-F2).
+   CreateLockedVault / AuctionActivator write liquidation / auction state only (not projected);
+   liquidation is enabled for the app (whitelisting present). *)
+Definition AUCTION : Z := 200.                                (* module account "auctionsV2" *)
+Definition hand_over (cfg : config) (st : state) (bid d dint : Z) : outcome state :=
+  match zget (borrows st) bid with
+  | None => Err 9
+  | Some b0 =>
+      if b_liq b0 then Ok st else
+      match zget (c_pairs cfg) (b_pair b0) with
+      | None => Err 4                                         (* pairs are never deleted *)
+      | Some pr =>
+      match zget (lends st) (b_lend b0) with
+      | None => Err 1
+      | Some l =>
+          if d =? 2 then Err 42 else if d =? 3 then Panic else
+          if negb (d =? 1) then Ok st else
+          match zget (c_pools cfg) (l_pool l), cdenom_of cfg (pr_in pr) with
+          | Some pin, Some cden =>
+              let b := upd_borrow b0 (b_in b0) (b_out b0) (b_brd b0) (b_int b0 + dint) (b_res b0) true in
+              b1 <- send (bnk st) (p_mod pin) AUCTION (pr_in pr) (b_in b0) ;;
+              b2 <- burn b1 (p_mod pin) cden (b_in b0) ;;
+              S1 <- upd_borrow_stats (sstats st) (pr_out_pool pr, pr_out pr) (b_stable b0) (- b_out b0) ;;
+              S2 <- upd_lend_stats S1 (l_pool l, l_asset l) (- b_in b0) ;;
+              let lin := l_in l - b_in b0 in
+              if lin >? 0 then
+                let l1 := upd_lend l lin (l_avail l) (l_rewards l) (l_tracker l) (l_bids l) in
+                Ok (with_bank (with_books st (zset (lends st) (b_lend b0) l1) (zset (borrows st) bid b) S2) b2)
+              else
+                match pget S2 (l_pool l, l_asset l) with
+                | None => Panic
+                | Some s =>
+                    Ok (with_bank (with_books st (zdel (lends st) (b_lend b0)) (zset (borrows st) bid b)
+                                     (pset S2 (l_pool l, l_asset l) (set_s_lids s (remove_sorted (b_lend b0) (s_lids s))))) b2)
+                end
+          | _, _ => Panic
+          end
+      end end
+  end.
+
 (* ---------- messages (ValidateBasic, then the handler) ---------- *)
 Inductive op :=
 | OLend (user asset denom amt poolid app ipb : Z)
@@ -885,7 +933,8 @@ Inductive op :=
 | OCloseBorrow (user bid : Z) (e : biter)
 | OBorrowAlt (user asset poolid din ain pid : Z) (stable : bool) (dout aout app ipb : Z) (e1 e2 : biter)
 | OCalc (user : Z) (es : list biter) (ipbs : list Z)
-| OSetPrice (asset : Z) (p : option Z).            (* oracle: the active Twa, or none *)
+| OSetPrice (asset : Z) (p : option Z)             (* oracle: the active Twa, or none *)
+| OHandOver (bid d dint : Z).                      (* MsgLiquidateInternalKeeper{LiqType 1, Id bid} *)
 
 Definition step (cfg : config) (st : state) (o : op) : outcome state :=
   match o with
@@ -910,6 +959,7 @@ Definition step (cfg : config) (st : state) (o : op) : outcome state :=
   | OSetPrice a p =>
       Ok (mkSt (lends st) (borrows st) (sstats st) (bnk st) (lctr st) (bctr st)
                (match p with Some v => zset (prices st) a v | None => zdel (prices st) a end))
+  | OHandOver bid d dint => if bid =? 0 then Err 100 else hand_over cfg st bid d dint
   end.
 
 (* baseapp: the writes of a message are kept only when it returns no error and does not panic *)
@@ -1122,3 +1172,37 @@ Definition op_saneb (o : op) : bool := match o with OSetPrice _ (Some p) => 0 <=
 (* AvailableToBorrow is an amount: never negative (ids 1 .. counter) *)
 Definition holds_C08_avail (st : state) : bool :=
   forallb (fun i => match zget (lends st) i with Some l => 0 <=? l_avail l | None => true end) (zseq (nlends st)).
+
+(* known-finding class 2 (C08-F2): a hand-over that exhausts the lend record's AmountIn deletes the
+   record although it still has AvailableToBorrow (accrued rewards raise AvailableToBorrow, not
+   AmountIn; withdrawals lower AmountIn first) or other open positions: their amounts stay in the
+   published TotalLend but belong to no lend position any more *)
+Definition other_open_on (st : state) (lid bid : Z) : bool :=
+  existsb (fun j => negb (j =? bid) &&
+                    match zget (borrows st) j with Some b => (b_lend b =? lid) && negb (b_liq b) | None => false end)
+          (zseq (nborrows st)).
+Definition kf_C08_2 (st : state) (o : op) : bool :=
+  match o with
+  | OHandOver bid d _ =>
+      match zget (borrows st) bid with
+      | Some b0 =>
+          if b_liq b0 then false else
+          match zget (lends st) (b_lend b0) with
+          | Some l => (d =? 1) && (l_in l - b_in b0 <=? 0) && (negb (l_avail l =? 0) || other_open_on st (b_lend b0) bid)
+          | None => false
+          end
+      | None => false
+      end
+  | _ => false
+  end.
+(* a history none of whose messages falls into the class *)
+Fixpoint clean (cfg : config) (st : state) (ops : list op) : Prop :=
+  match ops with
+  | [] => True
+  | o :: r => kf_C08_2 st o = false /\ clean cfg (apply_op cfg st o) r
+  end.
+Fixpoint cleanb (cfg : config) (st : state) (ops : list op) : bool :=
+  match ops with
+  | [] => true
+  | o :: r => negb (kf_C08_2 st o) && cleanb cfg (apply_op cfg st o) r
+  end.
